@@ -55,6 +55,53 @@ G_NEST = {"group": "g/outer", "members": [{"group": "g/inner", "members": [A, C,
 SHAPES = {"K1": K1, "K2": K2, "G_K2": G_K2, "G_NEST": G_NEST, "G_GEN": G_GEN, "N_E": N_E, "D_BASE": D_BASE, "D_EXT": D_EXT, "D_CLONE": D_CLONE, "D_STR": D_STR, "D_UNP": D_UNP, "D_MERGE": D_MERGE, "AL1": AL1, "AL2": AL2, "F_BAD2": F_BAD2, "F_OK2": F_OK2, "U1": U1, "U2": U2, "F_BAD": F_BAD, "F_OK": F_OK, "A": A, "A2": A2, "C": C, "BIG": BIG, "E": E, "N_A": N_A, "N_X": N_X, "G": G, "G_X": G_X, "G_ALT": G_ALT}
 
 
+def expand(case):
+    """Record specs of a case. Long histories are kept as a generator literal ("gen") so that cases, replays and reports stay
+    small: ["periodic", [shape names], N] = the pattern repeated up to N records; ["manytypes", T, flavour] = T distinct
+    record types written once each and then early / middle / late ones again (flavour: "names" = same fields under T names,
+    "fields" = one name with T different field lists, "both"); ["sizes", [n1, n2, ...]] = records of one type whose text field has
+    exactly n_i code points, in that order (buffer and chunk boundaries)."""
+    g = case.get("gen")
+    if not g:
+        return case["records"]
+    if g[0] == "periodic":
+        pat = [SHAPES[n] for n in g[1]]
+        return [pat[i % len(pat)] for i in range(g[2])]
+    if g[0] == "manytypes":
+        n, fl = g[1], g[2]
+        specs = []
+        for i in range(n):
+            name = "t/m%d" % i if fl in ("names", "both") else "t/many"
+            fields = [["varint", "n"], ["string", "s"]] if fl == "names" else [["varint", "n"], ["string", "s%d" % i]] + ([["string[]", "l"]] if i % 3 == 0 else [])
+            specs.append(rs(name, fields, [str(i), "'v%d'" % i] + (["['e%d']" % i] if len(fields) == 3 else [])))
+        return specs + [specs[0], specs[1], specs[n // 2], specs[n - 1], specs[0]] + specs[::-1][: min(n, 300)]
+    if g[0] == "sizes":
+        return [rs("t/sized", [["varint", "i"], ["string", "s"], ["bytes", "b"]], [str(i), "S('%s', %d)" % ("abcdefghij"[i % 10], n), "S(b'\\x%02x', %d)" % (i % 256, n // 3)]) for i, n in enumerate(g[1])]
+    raise ValueError(g)
+
+
+def long_cases(tier):
+    """S6: histories long enough to fill and cycle every counter, cache and buffer on the way (sizes chosen around the bounds in
+    the code: lru sizes 256 / 1000 / 1024 / 4096, io.DEFAULT_BUFFER_SIZE 8192, 64 KiB, gzip/zstd block sizes)."""
+    thorough = tier == "thorough"
+    pats = [[n] for n in ("A", "C", "G", "N_X", "BIG", "E", "K1")] + [["A", "A2"], ["K1", "K2"], ["A", "C"], ["G", "G_ALT"], ["U1", "U2"], ["N_A", "A"], ["A", "F_BAD", "A2"], ["G_K2", "K1"], ["D_BASE", "D_EXT", "D_UNP"], ["AL1", "AL2"], ["A", "A2", "C", "N_X", "G", "K1", "K2", "E"]]
+    for pat in pats:
+        for n in ((130, 1030) if not thorough else (130, 257, 1030, 4100)):
+            if n > 300 and len(pat) == 1 and not thorough:
+                continue
+            yield {"kind": "s6", "t": "periodic", "light": n > 300, "gen": ["periodic", pat, n]}
+    for fl in ("names", "fields", "both"):
+        for n in ((260, 1030) if not thorough else (260, 1030, 4100, 4200)):
+            yield {"kind": "s6", "t": "manytypes", "light": n > 300, "gen": ["manytypes", n, fl]}
+    edges = [8192, 65536] + ([4096, 16384, 131072, 1 << 20] if thorough else [])
+    for e in edges:
+        # a run of records whose text sizes walk over the edge one code point at a time, and the same sizes in falling order
+        walk = list(range(e - 40, e + 9))
+        yield {"kind": "s6", "t": "sizes", "light": True, "gen": ["sizes", walk]}
+        yield {"kind": "s6", "t": "sizes", "light": True, "gen": ["sizes", walk[::-1][:20] + [1, e, 2, e + 1]]}
+    yield {"kind": "s6", "t": "sizes", "light": True, "gen": ["sizes", [37 * i for i in range(260)]]}
+
+
 def small(spec):
     return not (spec.startswith("S(") and any(n in spec for n in ("65535", "65536")))
 
@@ -118,6 +165,7 @@ def cases(tier, seed):
         pool = names if k <= 2 else (["A", "A2", "C", "N_A", "N_X", "G", "G_X", "G_ALT", "BIG", "F_BAD", "F_OK", "F_BAD2", "F_OK2", "U1", "U2", "D_BASE", "D_EXT", "D_CLONE", "AL1", "AL2", "K1", "K2", "G_K2"] if k == 3 else ["A", "A2", "N_X", "G_X", "G", "G_ALT"])
         for seq in itertools.product(pool, repeat=k):
             yield {"kind": "s4", "t": "seq", "shape": list(seq), "records": [SHAPES[n] for n in seq]}
+    yield from long_cases(tier)
     # S5 atoms wrapped as record / record[] / grouped member
     for t in SCALAR_TYPES:
         for v in alphabet(t, seed)[: (40 if thorough else 7)]:
